@@ -221,7 +221,7 @@ def _history_of(beh):
 
 
 def _stage_b(ctx):
-    n1, n2 = (120, 80) if ctx.tier == "quick" else (4000, 2000)
+    n1, n2 = (120, 80) if ctx.tier == "quick" else (2000, 1000)
     from concurrent.futures import ThreadPoolExecutor
     with ThreadPoolExecutor(max_workers=2) as ex:
         f1 = ex.submit(vlib.simulate, "MC_BlockStore", "MC_BlockStore_sim.cfg", num=n1, depth=40, seed=ctx.seed + 19, tag="bs-sim1")
@@ -334,7 +334,7 @@ def _boundary_histories():
 
 def _stage_c(ctx):
     rnd = random.Random(ctx.seed * 1000003 + 19)
-    n, nbig = (300, 14) if ctx.tier == "quick" else (6000, 120)
+    n, nbig = (300, 14) if ctx.tier == "quick" else (3000, 80)
     hists = _boundary_histories()
     hists += [_rand_history(rnd, 24 if rnd.random() < 0.7 else 64, ctx.tier == "thorough") for _ in range(n)]
     hists += [_big_history(rnd) for _ in range(nbig)]
